@@ -301,8 +301,21 @@ func runC09(tier string, seed uint64) {
 					}
 				}
 			}
+			// keys that begin with what a listing may name as its delimiter (opaque-key backends only)
+			if (kind == "mem" || kind == "bolt") && cfg.host == "" {
+				for _, dk := range []string{"/lead", "//x/y", "-a", "-a-b", "bq", "b"} {
+					s.Put(singleBucketName, dk, []byte("delim-key"), nil)
+				}
+			}
 			// regression corpus: the requests that used to panic or answer malformed errors
 			var corpus []Req
+			for _, pd := range [][2]string{{"lead/", "/"}, {"lead", "/"}, {"/lead/", "/"}, {"x/y/", "/"}, {"x/", "/"}, {"a-", "-"}, {"a-b-", "-"}, {"-", "-"}, {"qb", "b"}, {"q", "b"}, {"bq", "b"}, {"k/", "/"}, {"d/e/", "/"}} {
+				q := "prefix=" + queryEscape(pd[0]) + "&delimiter=" + queryEscape(pd[1])
+				corpus = append(corpus, Req{Method: "GET", Path: "/" + singleBucketName + "?" + q},
+					Req{Method: "GET", Path: "/" + singleBucketName + "?list-type=2&" + q},
+					Req{Method: "GET", Path: "/" + singleBucketName + "?versions&" + q},
+					Req{Method: "GET", Path: "/" + singleBucketName + "?uploads&" + q})
+			}
 			// a pending upload whose bucket is deleted (it holds no object) before the upload is completed,
 			// listed, continued and aborted; bystanders on the other bucket and the bucket's re-creation follow
 			if !isSingle(kind) && cfg.host == "" {
@@ -394,7 +407,7 @@ func runC09(tier string, seed uint64) {
 			s.end()
 		}
 	}
-	sample("grammar: method x path (bucket pool incl. nosuch . .. _meta, key pool incl. hostile strings) x 0..3 query parameters out of 26 sub-resources/pagination parameters with valid, absurd, overflowing and non-numeric values x body (multi-delete / complete / versioning XML with hostile fields, malformed XML, random bytes, multipart forms with missing/duplicate parts, aws-chunked incl. truncated, hostile decoded lengths) x 0..2 headers (hostile Range, Content-MD5, X-Amz-Copy-Source, Content-Length, conditional headers, force-delete, oversized metadata) against stores holding objects, versions with a delete marker, pending uploads with parts and keys whose uploads were aborted or completed (plus a fixed corpus of earlier crashers and of upload listings with every small max-uploads x prefix / delimiter / key-marker); every 25 requests a canary sequence on a fresh bucket and on the fuzzed bucket")
+	sample("grammar: method x path (bucket pool incl. nosuch . .. _meta, key pool incl. hostile strings) x 0..3 query parameters out of 26 sub-resources/pagination parameters with valid, absurd, overflowing and non-numeric values x body (multi-delete / complete / versioning XML with hostile fields, malformed XML, random bytes, multipart forms with missing/duplicate parts, aws-chunked incl. truncated, hostile decoded lengths) x 0..2 headers (hostile Range, Content-MD5, X-Amz-Copy-Source, Content-Length, conditional headers, force-delete, oversized metadata) against stores holding objects, versions with a delete marker, pending uploads with parts and keys whose uploads were aborted or completed (keys beginning with a delimiter, plus a fixed corpus of earlier crashers, of listings whose prefix contains the delimiter and of upload listings with every small max-uploads x prefix / delimiter / key-marker); every 25 requests a canary sequence on a fresh bucket and on the fuzzed bucket")
 }
 
 func truncate(b []byte, n int) []byte {
